@@ -435,6 +435,14 @@ def rand_decl(rnd, depth=2, ctx="file"):
         sp.f["order"] = [("storage", 0)] + [o for o in sp["order"] if o[0] not in ("align", "storage")]
     dts = []
     n = rnd.choice([1, 1, 1, 2, 3])
+    if ctx == "file" and rnd.random() < 0.08:
+        # a prototype whose parameters are NAMED like visible typedef names (prototype scope ends with the declarator:
+        # whatever follows - struct bodies, initializer braces, blocks - still sees the typedef names)
+        t0, t1 = rnd.sample(TYPEDEFS, 2)
+        params = [M("param", specs=basic_specs(["int"]), dtor=dtor(t0)),
+                  M("param", specs=specs_of(M("tdname", name=t1)), dtor=dtor(t1, [("ptr", [])]))]
+        fn = ("fn", {"params": params, "variadic": False, "kr": None})
+        return M("decl", specs=basic_specs(["void"]), dtors=[dtor("pf%d" % rnd.randrange(100000), [fn])])
     if sp["ts"].k in ("su", "enum") and rnd.random() < 0.2 and not typedef:
         return M("decl", specs=sp, dtors=[])
     for i in range(n):
